@@ -173,7 +173,7 @@ def special_name_ok(i, x, typed):
 def harnesses(ctx) -> List[H]:
     hs: List[H] = []
     for name, (hargs, pre, S) in GROUPS.items():
-        hs.append(mk(f"c10_total_{name}", f"{hargs}, v: {ANY}", pre + ANYPRE, f"return total(parse_s({S}), v)", timeout=200 if name != "array_unique" else 900, group="validation",
+        hs.append(mk(f"c10_total_{name}", f"{hargs}, v: {ANY}", pre + ANYPRE, f"return total(parse_s({S}), v)", timeout=200 if name != "array_unique" else 900, group="validation", expect="unknown" if name == "array_unique" else "confirmed",
                      tier="thorough" if name == "array_unique" else "quick", covers=f"{S} on values of every JSON type"))
         hs.append(mk(f"c10_total_msg_{name}", f"{hargs}, v: {ANY}", pre + ANYPRE, f"return total(parse_s({S}), v)", timeout=120, group="validation-messages",
                      message_stub=False, expect="unknown", tier="thorough",
@@ -199,10 +199,10 @@ def harnesses(ctx) -> List[H]:
                  'pre = ("12:", "12:30:", "2020-01-01T00:00:", "1-", "T", "2020-", "1e", "0.")[p]\nc = ("9", ".")[i]\nreturn total(parse_s({"format": "date-time"}), pre + c * n) and total(parse_s({"format": "uuid"}), pre + c * n)',
                  timeout=600, group="format", tier="thorough", covers="run lengths up to 32 of '9' / '.' after 8 date/time-like prefixes"))
     core = [SPECIAL_NAMES.index(n) for n in ("__dict__", "__weakref__", "__module__", "__slots__", "__class__", "__doc__", "__init__", "_dict", "properties", "default", "validators", "__annotations__")]
-    hs.append(mk("c10_special_property_names_core", "j: int, x: int", [f"0 <= j < {len(core)}"], f"return special_name_ok({core!r}[concretize_int(j, 0, {len(core) - 1})], x, True)", timeout=500, group="names",
+    hs.append(mk("c10_special_property_names_core", "j: int, pos: bool", [f"0 <= j < {len(core)}"], f"return special_name_ok({core!r}[concretize_int(j, 0, {len(core) - 1})], (5 if pos else -1), True)", timeout=300, group="names",
                  covers="the 12 most hazardous special names as property names of a model class"))
     for typed in (True, False):
-      hs.append(mk(f"c10_special_property_names_{'typed' if typed else 'untyped'}", "i: int, x: int", [f"0 <= i < {len(SPECIAL_NAMES)}"], f"return special_name_ok(concretize_int(i, 0, {len(SPECIAL_NAMES) - 1}), x, {typed})", timeout=900, group="names", tier="thorough",
+      hs.append(mk(f"c10_special_property_names_{'typed' if typed else 'untyped'}", "i: int, pos: bool", [f"0 <= i < {len(SPECIAL_NAMES)}"], f"return special_name_ok(concretize_digits(i, 2), (5 if pos else -1), {typed})", timeout=900, group="names", tier="thorough",
                  covers="property names that are Python-special attribute names (dunder names of plain instances, names used by the model machinery)"))
     # unhashable / nested items
     hs.append(mk("c10_unique_scalars", "u: bool, v: Union[int, str, List[Union[int, bool]]]", ["not isinstance(v, str) or len(v) <= 1", "not isinstance(v, list) or len(v) <= 3"],
